@@ -210,6 +210,24 @@ def merge(procs):
     return tot
 
 
+def collapse(counters, limit=40):
+    """group very wide counter families (e.g. one key per field position) for the evidence file"""
+    fam = {}
+    for k in counters:
+        pre = k.split(":", 1)[0] if ":" in k else None
+        fam.setdefault(pre, []).append(k)
+    out = {}
+    for pre, keys in fam.items():
+        if pre is None or len(keys) <= limit:
+            for k in keys:
+                out[k] = counters[k]
+        else:
+            vals = [counters[k] for k in keys]
+            out[pre + ":*"] = {"keys": len(keys), "min": min(vals), "max": max(vals), "total": sum(vals),
+                               "examples": {k: counters[k] for k in sorted(keys)[:6]}}
+    return out
+
+
 def check(pid, tier, nshards, scale):
     t0 = time.time()
     seed = int(os.environ.get("VERIF_SEED", "1"))
@@ -295,7 +313,7 @@ def check(pid, tier, nshards, scale):
         "distinct_nontrivial": int(tot["distinct"]),
         "rule": cfg["rule"],
         "samples": tot["samples"],
-        "observed": tot["counters"],
+        "observed": collapse(tot["counters"]),
         "floors_required": tot["floors"],
         "floors_missing": floors_missing,
         "max_ratio_observed_over_tolerance": tot["max_ratio"],
